@@ -292,7 +292,12 @@ def fields_of_case(entries):
     return [(x[1], x[2]) for x in ref_parse_header(header_text_of(hs[0][1])) if x[0] == 'F']
 
 def parseaddr(v):
-    return email.utils.parseaddr(v)[1]
+    """the address part `email.utils.parseaddr` finds; '' when the library cannot parse the value at all (its recursive
+    parser gives up with RecursionError on some 500 nested comments) - the contract of `parse_address` in lib/check (fix 875595a)"""
+    try:
+        return email.utils.parseaddr(v)[1]
+    except RecursionError:
+        return ''
 
 def url_scheme(v):
     try:
